@@ -298,20 +298,34 @@ def commaJoin : List Str → Str
   | [x] => x
   | x :: r => x ++ ',' :: commaJoin r
 
-/-- the scan of `is_single_group` over the stripped text; `n` = characters left after the current one -/
-def groupScan : Nat → Option Char → Str → Bool
-  | _, _, [] => true
-  | depth, some q, c :: r => if c = q then groupScan depth none r else groupScan depth (some q) r
-  | depth, none, c :: r =>
-    if c = '\'' ∨ c = '"' ∨ c = '`' then groupScan depth (some c) r
-    else if c = '(' then groupScan (depth + 1) none r
+/-- `starts_regexp` (fix: regular expressions are skipped by `is_single_group`): does a slash open a regular expression
+rather than being a division sign? `rev` = the characters before the slash, the last one first -/
+def startsRegexp (rev : Str) : Bool :=
+  match rev.dropWhile isWs with
+  | [] => true
+  | c :: b =>
+    if c ∈ s%"(,~=<>!*+-^&|" then true
+    else [s%"IN", s%"NE", s%"EQ", s%"LE", s%"LT", s%"GE", s%"GT", s%"LIKE", s%"AND", s%"OR", s%"NOT"].contains
+      (upper (((c :: b).takeWhile fun x => ('a' ≤ x ∧ x ≤ 'z') ∨ ('A' ≤ x ∧ x ≤ 'Z')).reverse))
+
+/-- the scan of `is_single_group` over the stripped text: nesting depth, inside a regular expression?, inside which
+quote?, the characters already scanned (last first) -/
+def groupScan : Nat → Bool → Option Char → Str → Str → Bool
+  | _, _, _, _, [] => true
+  | depth, true, q, rev, c :: r => groupScan depth (c != '/') q (c :: rev) r
+  | depth, false, some q, rev, c :: r =>
+    if c = q then groupScan depth false none (c :: rev) r else groupScan depth false (some q) (c :: rev) r
+  | depth, false, none, rev, c :: r =>
+    if c = '\'' ∨ c = '"' ∨ c = '`' then groupScan depth false (some c) (c :: rev) r
+    else if c = '/' ∧ startsRegexp rev then groupScan depth true none (c :: rev) r
+    else if c = '(' then groupScan (depth + 1) false none (c :: rev) r
     else if c = ')' then
-      (if depth - 1 = 0 ∧ !r.isEmpty then false else groupScan (depth - 1) none r)
-    else groupScan depth none r
+      (if depth - 1 = 0 ∧ !r.isEmpty then false else groupScan (depth - 1) false none (c :: rev) r)
+    else groupScan depth false none (c :: rev) r
 
 def isSingleGroup (exp : Str) : Bool :=
   let e := strip exp
-  if startsWith ['('] e && endsWith [')'] e then groupScan 0 none e else false
+  if startsWith ['('] e && endsWith [')'] e then groupScan 0 false none [] e else false
 
 def valStr (r : R) : Res Str := do pyStr (← tokOf r).val
 
